@@ -74,7 +74,8 @@ func observeFraming(text string) (obs string) {
 			obs = "PANIC"
 		}
 	}()
-	_, err := ach.NewReader(strings.NewReader(text)).Read()
+	// explicit charset: the framing loop is what is compared here, not x/net's charset sniffing
+	_, err := ach.NewReaderWithContentType(strings.NewReader(text), "text/plain; charset=utf-8").Read()
 	var parts []string
 	var list base.ErrorList
 	if err != nil {
